@@ -4,6 +4,7 @@ token sequences, gap requirements, numbers, provenance (source maps) and warning
 import json
 from fractions import Fraction
 
+import outmap
 import vlib
 
 POOL = {1: "0", 2: "2", 3: "75", 4: "50", 5: "0.3", 6: "7", 7: "750", 8: "-75", 9: "+75", 10: ".5", 11: "1.5", 12: "1e3", 13: "999999",
@@ -449,8 +450,10 @@ def check_srcmap(exp_seq, act_tokens, entries, pos, which, import_spans, name_ch
     return findings
 
 
-def evaluate(cases, rnd, ratios=(750,), multiline=True, variants=1):
-    """cases: MCCss CASE records.  -> list of {case, src, opts, findings: [(aspect, where, msg)], panic}"""
+def evaluate(cases, rnd, ratios=(750,), multiline=True, variants=1, trace=None):
+    """cases: MCCss CASE records.  -> list of {case, src, opts, findings: [(aspect, where, msg)], panic}
+    trace: a dict; when given, both outputs of every case are also validated as traces against spec/OutMapTrace.tla
+    (rejections become `srcmap` findings) and the dict receives the counts"""
     units = []
     for ci, c0 in enumerate(cases):
         c = unplace(c0)
@@ -481,6 +484,8 @@ def evaluate(cases, rnd, ratios=(750,), multiline=True, variants=1):
                 a, "U+%X-%X" % tuple(ra), b, ("U+%X-%X" % tuple(rb)) if rb else "nothing (not a valid range)")))
     out = []
     pending_names = []
+    titems = []          # (starts, events) per output, for OutMapTrace
+    towner = []
     for ui, (u, r) in enumerate(zip(units, vres)):
         c = u["case"]
         rec = {"case": u["ci"], "src": u["src"], "opts": u["opts"], "findings": [], "panic": r.get("panic") or [], "normal": r.get("normal"), "low": r.get("low")}
@@ -520,9 +525,25 @@ def evaluate(cases, rnd, ratios=(750,), multiline=True, variants=1):
             rec["findings"] += check_srcmap(c["low"], r["ltok"], r["lmap"], u["pos"], "low", spans, nchecks)
         for x in nchecks:
             pending_names.append((rec, x))
+        if trace is not None and "itok" in r:
+            starts = outmap.src_starts(r["itok"])
+            for which, okx, tk, mp in (("normal", ok1, "ntok", "nmap"), ("low", ok2, "ltok", "lmap")):
+                titems.append((starts, outmap.events(r[tk], r[mp], c[which] if okx else None, u["pos"], spans, expected_src_positions)))
+                towner.append((rec, which))
         if not r.get("map_rt", True):
             rec["findings"].append(("srcmap", "json", "source map does not survive its JSON serialisation"))
         # the input itself must tokenise to the abstract sheet (sanity of the concretiser)
+    if titems:
+        acc, rej, (st, tr) = outmap.validate(titems)
+        trace["traces"] = trace.get("traces", 0) + len(titems)
+        trace["accepted"] = trace.get("accepted", 0) + acc
+        trace["events"] = trace.get("events", 0) + sum(len(ev) + 1 for _, ev in titems)
+        trace["states"] = trace.get("states", 0) + st
+        trace["transitions"] = trace.get("transitions", 0) + tr
+        for x in rej:
+            rec, which = towner[x["item"]]
+            rec["findings"].append(("srcmap", which, "OutMapTrace refuses the output's trace at event %d: %s" % (
+                x["event_no"], outmap.explain(titems[x["item"]][1], x["event_no"]))))
     if pending_names:
         uniq = sorted({x[2] for _, x in pending_names})
         tk = {n: r_.get("tok") for n, r_ in zip(uniq, vlib.run_vh("css", [{"id": i, "tokenize": n} for i, n in enumerate(uniq)], jobs=2))}
